@@ -1,4 +1,5 @@
 import PT.Lemmas.Machine
+import PT.SetSpec
 import PT.Lemmas.Writes
 /-!
 # Keyed entry lists: the specification side of the simultaneous traversals
@@ -6,14 +7,6 @@ import PT.Lemmas.Writes
 namespace SetOps
 variable {w : Nat} {L R T : Type}
 open Tree Pfx
-
-/-- entries with slots: (slot, stored prefix, value) -/
-abbrev KL (w : Nat) (T : Type) := List (Nat × Pfx w × T)
-
-def keyOf (x : Nat × Pfx w × T) : List Bool := x.2.1.net
-
-/-- the entry stored under key `k` -/
-def lookupK (B : KL w T) (k : List Bool) : Option (Nat × Pfx w × T) := B.find? (fun b => keyOf b == k)
 
 theorem lookupK_nil (k : List Bool) : lookupK ([] : KL w T) k = none := rfl
 
@@ -67,9 +60,6 @@ theorem key_ne_of_below {k : List Bool} {c : Bool} {A : KL w L} (ha : Under (k +
     ∀ a ∈ A, keyOf a ≠ k := fun a ha' => List.ne_of_snoc_prefix (ha a ha')
 
 /-! ### intersection -/
-
-def interS (A : KL w L) (B : KL w R) : List (IItem w L R) :=
-  A.filterMap (fun a => (lookupK B (keyOf a)).map (fun b => ⟨a.2.1, (a.1, a.2.2), (b.1, b.2.2)⟩))
 
 theorem interS_nil_left (B : KL w R) : interS ([] : KL w L) B = [] := rfl
 
